@@ -120,20 +120,21 @@ type c11Sim struct {
 	bc      *verifkit.FakeBlockCounter
 	cancel  context.CancelFunc
 
-	mu        sync.Mutex
-	loopGoid  int64
-	bg        []uint64 // blocks waited for by helper goroutines, in order
-	bgSeen    int
-	mainWaits []uint64
-	inflight  atomic.Int64 // waitForBlock calls in progress
-	curCalls  int
-	obs       map[uint]*c11Observed
-	order     []uint
-	current   uint // attempt in progress (signing: from the current-block call; dkg: from the announcer)
-	doneCtx   context.Context
-	problem   string // first violation
-	inconcl   string
-	over      bool
+	mu          sync.Mutex
+	loopGoid    int64
+	bg          []uint64 // blocks waited for by helper goroutines, in order
+	bgSeen      int
+	mainWaits   []uint64
+	inflight    atomic.Int64 // waitForBlock calls in progress
+	curCalls    int
+	waitErrDone uint
+	obs         map[uint]*c11Observed
+	order       []uint
+	current     uint // attempt in progress (signing: from the current-block call; dkg: from the announcer)
+	doneCtx     context.Context
+	problem     string // first violation
+	inconcl     string
+	over        bool
 }
 
 func (s *c11Sim) fail(format string, a ...any) {
@@ -169,12 +170,23 @@ func (s *c11Sim) waitForBlock(ctx context.Context, block uint64) error {
 	if c11Goid() == s.loopGoid {
 		s.mu.Lock()
 		s.mainWaits = append(s.mainWaits, block)
+		waits := len(s.mainWaits)
 		n := s.current
 		if !s.signing {
 			n = s.current + 1 // the dkg loop waits before it announces attempt current+1
 		}
+		// a scripted wait failure hits once per attempt
+		failOnce := n != s.waitErrDone
+		s.waitErrDone = n
 		s.mu.Unlock()
-		if st, ok := s.step(n); ok && st.waitErr {
+		// The script is over when the loop keeps iterating far beyond it,
+		// whatever hooks it calls or omits on the way.
+		if waits > 4*len(s.script)+16 {
+			s.over = true
+			s.cancel()
+			return errors.New("scripted: over")
+		}
+		if st, ok := s.step(n); ok && st.waitErr && failOnce {
 			return errors.New("scripted: block wait failed")
 		}
 		if block > s.bc.Height() {
@@ -276,9 +288,6 @@ func (s *c11Sim) Announce(ctx context.Context, memberIndex group.MemberIndex, se
 	n := uint(nn)
 	if s.over {
 		return nil, errors.New("scripted: over")
-	}
-	if s.signing && n != s.current {
-		s.fail("announcement for attempt %d while the loop is in its iteration %d", n, s.current)
 	}
 	s.current = n
 	st, ok := s.step(n)
@@ -606,7 +615,11 @@ func c11CheckMember(t *rapid.T, p c11Plan, mi int, run c11Run, ph c11Phase, sign
 		}
 		prev = o
 		if o.closedOnEntry {
-			skipped++ // reached too late: the window was closed, nobody else is heard
+			if signingLoop {
+				t.Fatalf("%s: took part in attempt %d (announced at block %d) although its announcement phase [%d,%d) had already passed",
+					who, n, o.entryHeight, wantStart, wantEnd)
+			}
+			skipped++ // dkg: reached too late, the window is closed and nobody else is heard
 		}
 		if o.listened {
 			if o.listenTimeout != wantTimeout {
